@@ -45,6 +45,16 @@ def path(ctx, params):
     x = np.array(xs)
     info = dict(name=name, n=n)
     try:
+        # the pair is called before, at another point of the same dimension (a benchmark function must not depend on
+        # what it was asked earlier: "for all x" includes "whatever came before")
+        warm = np.array([SReal.of(Fraction(3, 8) + Fraction(i, 16)) for i in range(n)])
+        try:
+            f(warm)
+            g(warm)
+        except (PathAbort, Unsupported):
+            raise
+        except Exception:
+            pass
         val = f(x)
         if name == "griewank":
             # domain: cos(x_i/sqrt(i)) != 0 (the quotient form of the gradient is 0/0 there); assumed, not forked
